@@ -485,7 +485,7 @@ func init() {
 	})
 	Register(&Family{
 		Name: "versions", Charge: "C17", Cfgs: append(allIdx(1), allIdx(2)...), Letters: versionLetters,
-		Depth: map[string]int{"quick": 4, "thorough": 5}, Obs: drv.ObsAll &^ drv.ObsTrim, KeySet: []int{0, 1},
+		Depth: map[string]int{"quick": 5, "thorough": 6}, Obs: drv.ObsAll &^ drv.ObsTrim, KeySet: []int{0, 1},
 		Before: func(w *drv.World) any { return [2]any{w.SnapVersions(), w.Cfg.Keep} },
 		After: func(w *drv.World, letter string, before any) {
 			b := before.([2]any)
@@ -494,7 +494,7 @@ func init() {
 	})
 	Register(&Family{
 		Name: "backup", Cfgs: []drv.Cfg{cfgBoth, withVer(cfgNone, 1)}, Letters: backupLetters,
-		Depth: map[string]int{"quick": 5, "thorough": 6}, Obs: drv.ObsWalk | drv.ObsNext, KeySet: []int{0, 1},
+		Depth: map[string]int{"quick": 6, "thorough": 7}, Obs: drv.ObsWalk | drv.ObsNext, KeySet: []int{0, 1},
 	})
 }
 
